@@ -429,11 +429,17 @@ func signedAreaOfLinearRing(lr LineString, transform func(XY) XY) float64 {
 		return pt
 	}
 
-	pt1 := nthPt(0)
+	// The X values are taken relative to the first point of the ring. This
+	// doesn't change the result mathematically (the Y differences around a
+	// closed ring sum to zero), but without it the terms are so much bigger
+	// than the area for a ring that is small compared to the magnitude of its
+	// coordinates that the area is lost to rounding error.
+	ref := nthPt(0)
+	pt1 := ref
 	for i := 0; i < n-1; i++ {
 		pt0 := pt1
 		pt1 = nthPt(i + 1)
-		sum += (pt1.X + pt0.X) * (pt1.Y - pt0.Y)
+		sum += ((pt1.X - ref.X) + (pt0.X - ref.X)) * (pt1.Y - pt0.Y)
 	}
 	return sum / 2
 }
